@@ -609,10 +609,27 @@ class Body:
         if d in TRANSPARENT and args:
             return args[TRANSPARENT[d]]
         callee = callee_path(f)
+        if d == "std::boxed::box_assume_init_into_vec_unsafe" and args:
+            v = self._vec_macro_contents(args[0], depth)
+            if v is not None:
+                return v
         inl = self.facts_inline(callee, args, depth)
         if inl is not None:
             return inl
         return ("call", callee, args, bi)
+
+    def _vec_macro_contents(self, box_term, depth):
+        """`vec![a, b]` expands to Box::new_uninit + `(*box).value.value.0 = [a, b]` + into_vec: recover [a, b]"""
+        for b in self.blocks:
+            if b["cleanup"]:
+                continue
+            for s in b["stmts"]:
+                lhs = s.get("lhs")
+                if lhs and lhs["p"] and "d" in lhs["p"][0] and s["rv"]["r"] == "agg" and s["rv"]["kind"]["k"] == "array":
+                    if self.local_term(lhs["l"], depth + 1) == box_term:
+                        ops = tuple(self.operand_term(o, depth + 1) for o in s["rv"]["ops"])
+                        return ("agg", "vec", (), ops)
+        return None
 
     def facts_inline(self, callee, args, depth):
         """inline tiny workspace accessors: bodies whose return term is built only from params"""
